@@ -37,6 +37,7 @@ ND_FIELDS = dict(shape=I, dtype=I, base=I, layout=I, val=R, writeable=B)
 
 # uninterpreted helpers shared by contracts
 NDIM = z3.Function("NDIM", I, I)  # number of dimensions of a shape id
+SIZE = z3.Function("SIZE", I, I)  # number of elements of a shape id (>= 0)
 FLAG = z3.Function("FLAG", z3.StringSort(), I, I, z3.BoolSort())
 CANCAST = z3.Function("CANCAST", I, I, z3.BoolSort())
 STRIDES_EQ = z3.Function("STRIDES_EQ", I, I, I, I, z3.BoolSort())
@@ -106,6 +107,10 @@ class NdModel:
             return SRef("ndarray", h.get("ndarray", "base", o.ref))
         if name == "ndim":
             return NDIM(h.get("ndarray", "shape", o.ref))
+        if name == "size":
+            sz = SIZE(h.get("ndarray", "shape", o.ref))
+            interp.ctx.assume(sz >= 0)
+            return sz
         if name == "strides":
             # strides are a function of (shape, layout); equal shapes => strides equal iff layouts equal
             return _Strides(h.get("ndarray", "shape", o.ref), h.get("ndarray", "layout", o.ref))
